@@ -116,6 +116,11 @@ def run(tier, replay):
             states += r.distinct
             trans += r.generated
             log("TLC MaprClientSched %s NMsgs=%d: %d distinct states; EveryLineInFinalResult and termination hold" % (sv, nm, r.distinct))
+        if "KF_NoReadableFile" in V.kf:
+            # design level: with no file at all the aggregator never gets its first channel - the run does not end
+            r0 = vlib.tlc(wd, "MC_MaprSched", "Z.cfg", files={"Z.cfg": server_cfg(0, 1, False, inv="")}, timeout=600)
+            if r0.violated != "temporal":
+                raise vlib.Inconclusive("the model with NFiles = 0 terminates although KF_NoReadableFile is listed as open (%s)" % r0.violated)
         if kf_exit:
             r = vlib.tlc(wd, "MC_MaprSched", "G.cfg", files={"G.cfg": server_cfg(2, 1, True, prop="")}, timeout=600)
             if r.violated != "EveryLineCounted":
@@ -157,9 +162,11 @@ def run(tier, replay):
         for n in ([300] if tier == "quick" else [300, 45, 1200]):
             cases.append({"id": 0, "nfiles": 1, "lines": [n], "limit": 2, "sched": [], "free": True, "interim": True, "model_counted": -1})
         cases.append({"id": 0, "nfiles": 130, "lines": [rng.choice([2, 3, 5]) for _ in range(130)], "limit": 130, "sched": [], "free": True, "model_counted": -1})
+        # a session in which nothing can be read at all (open finding KF_NoReadableFile)
+        cases.append({"id": 0, "nfiles": 0, "lines": [], "limit": 2, "sched": [], "free": True, "onlydir": True, "model_counted": -1})
         for c in cases:
             c["nofinalnl"] = rng.random() < 0.4
-            c["broken"] = bool(c.get("free")) and not c.get("interim") and rng.random() < 0.6
+            c["broken"] = bool(c.get("free")) and not c.get("interim") and not c.get("onlydir") and rng.random() < 0.6
         for i, c in enumerate(cases):
             c["id"] = i + 1
         cj, oj = os.path.join(wd, "cases.json"), os.path.join(wd, "out.json")
@@ -180,6 +187,8 @@ def run(tier, replay):
             desc = {"case": {k: c[k] for k in ("id", "nfiles", "lines", "limit", "free")}, "sched": c["sched"], "counted": res["counted"],
                     "total": res["total"], "ended": res["ended"], "followed": res["followed"], "trace_head": res["trace"][:60]}
             kf = classify_server(res, c["nfiles"])
+            if c.get("onlydir") and res["total"] == 0 and not res["ended"] and not any(t.startswith("mapr.register") for t in res["trace"]):
+                kf = "KF_NoReadableFile"
             if kf and kf in V.kf:
                 V.known(kf, desc)
             else:
@@ -188,7 +197,7 @@ def run(tier, replay):
         tv_done = tv_acc = tv_states = 0
         binding_selftest = "not run"
         tvjobs = [(c, res) for c, res in zip(cases, results)
-                  if c["nfiles"] <= 5 and not c.get("interim") and not c.get("broken") and min(c["lines"]) > 0 and 0 < len(res.get("trace") or []) < 400]
+                  if 0 < c["nfiles"] <= 5 and not c.get("interim") and not c.get("broken") and min(c["lines"]) > 0 and 0 < len(res.get("trace") or []) < 400]
         if tvjobs:
             vlib.tlc(wd, "MC_MaprSched", "W.cfg", files={"W.cfg": server_cfg(2, 1, False, prop="")}, timeout=600)   # copies spec/ once
             with ThreadPoolExecutor(max_workers=max(2, vlib.NCPU // 2)) as ex:
